@@ -35,7 +35,7 @@ const int kTable = 16;   // the -! table: 2 command lines x 8 sets of driver-spe
 const int kChkAll = 1000;  // sol:chk:fail with a violating answer under every code 0..999
 const int kRepFailSites = 6; // every code x a solver query failing while the results are collected (IIS finder, rays, basis, sensitivity)
 const char* kRepFailWhere[kRepFailSites] = {"ComputeIIS", "GetIIS", "Ray", "DRay", "GetBasis", "GetSensRangesPresolved"};
-const int kSession = 60;   // one solver instance, several solve + report rounds through the AMPLS C API (standard / named .sol files)
+const int kSession = 200;  // one solver instance, several solve + report rounds through the AMPLS C API (standard / named .sol files)
 uint64_t enumerated(const std::string&) {
   return (uint64_t)kCodes * kPatterns * kModes + kTable + (uint64_t)kAbortCodes * kAbortSites * kModes + kChkFail + (uint64_t)kCodes * kRound + kChkAll + kSession + (uint64_t)kCodes * kRepFailSites;
 }
@@ -81,6 +81,13 @@ sim::Json generate(const std::string& tier, uint64_t seed, uint64_t index) {
       int w = (int)rng.below(4);
       if (w == 0) rd.set("solfile", "@/named_a.sol"); else if (w == 1) rd.set("solfile", "@/named_b.sol"); else rd.set("solfile", sim::Json());
       rounds.push(rd);
+    }
+    // a third of the sessions run with sol:chk:fail and a violating answer: wherever the code announces a solution candidate the
+    // report step ends in the documented coded error 150 (the C API returns non-zero; whatever .sol it leaves carries that code)
+    if (rng.chance(0.35)) {
+      sim::Json lo2 = sim::Json::array(); lo2.push("sol:chk:fail"); ses.set("load_options", lo2);
+      for (size_t i = 0; i < rounds.size(); ++i) rounds.arr()[i].ref("script").set("dual", "none");
+      ses.set("chkfail", true);
     }
     ses.set("rounds", rounds);
     sc.set("session", ses);
@@ -199,15 +206,30 @@ void judge(const sim::Json& sc, const RunRecord& rec, sim::RunResult& r) {
       std::string target = spec["solfile"].is_null() ? "stub.sol" : spec["solfile"].as_str().substr(2);
       int c = (int)spec["script"]["status"].as_int();
       std::string rk = range_key(c) + "/session";
+      const bool chkfail = sc["session"]["chkfail"].as_bool();
+      if (chkfail) { rk += "/chkfail"; r.stats.set("session_chkfail_rounds", r.stats["session_chkfail_rounds"].as_int(0) + 1); }
+      const bool cand = in(c, 0, 99) || in(c, 100, 199) || in(c, 300, 349) || in(c, 400, 449);
+      const int c_in = c;
+      if (chkfail && cand) c = 150;
       auto it = rd.sol_files.find(target);
       if (rec.rc_load != 0) { flag("SESSION_LOAD_FAILED", "load", "AMPLSLoadNLModel returned " + std::to_string(rec.rc_load)); break; }
-      if (it == rd.sol_files.end()) flag("NO_SOL", rk, "round " + std::to_string(i) + ": " + target + " not written");
+      if (chkfail && rd.rc_report != 0) {
+        // the step failed and said so: a .sol is not owed; one that is written anyway must carry the code of the error
+        r.stats.set("session_report_failed_coded", 1);
+        auto pt = prev.find(target);
+        bool rewritten = it != rd.sol_files.end() && (pt == prev.end() || pt->second != it->second);
+        if (rewritten) {
+          oracle::SolFile sf = oracle::parse_sol(it->second);
+          if (sf.ok && sf.code != c && sf.code != c_in) flag("CODE_CHANGED", rk, "round " + std::to_string(i) + ": the report step failed with the coded error " + std::to_string(c) + " (sol:chk:fail), " + target + " says " + std::to_string(sf.code));
+        }
+      }
+      else if (it == rd.sol_files.end()) flag("NO_SOL", rk, "round " + std::to_string(i) + ": " + target + " not written");
       else {
         oracle::SolFile sf = oracle::parse_sol(it->second);
         if (!sf.ok) flag("MALFORMED_SOL", rk, "round " + std::to_string(i) + ": " + sf.error);
         else {
           if (sf.code != c) flag("CODE_CHANGED", rk, "round " + std::to_string(i) + ": backend reported " + std::to_string(c) + ", " + target + " says " + std::to_string(sf.code));
-          if (sf.message_text().find("status-msg-round-" + std::to_string(i)) == std::string::npos) flag("STATUS_MSG_LOST", rk, "round " + std::to_string(i) + ": " + target + " lacks this round's status text: " + sf.message_text().substr(0, 200));
+          if (!(chkfail && cand) && sf.message_text().find("status-msg-round-" + std::to_string(i)) == std::string::npos) flag("STATUS_MSG_LOST", rk, "round " + std::to_string(i) + ": " + target + " lacks this round's status text: " + sf.message_text().substr(0, 200));
         }
       }
       for (auto& kv : prev) if (kv.first != target) { auto jt = rd.sol_files.find(kv.first); if (jt == rd.sol_files.end() || jt->second != kv.second) flag("OTHER_FILE_TOUCHED", rk, "round " + std::to_string(i) + " reported to " + target + " but " + kv.first + " changed"); }
